@@ -1,6 +1,7 @@
 package pgen
 
 import (
+	"fmt"
 	"math/rand"
 )
 
@@ -10,7 +11,7 @@ import (
 const NTemplates = 9
 
 // NFileTemplates file-passing skeletons follow the NTemplates dataflow ones.
-const NFileTemplates = 5
+const NFileTemplates = 6
 
 func ref(call string, path ...string) *Exp { return &Exp{Kind: ERefCall, Id: call, Path: path} }
 func self(id string, path ...string) *Exp  { return &Exp{Kind: ERefSelf, Id: id, Path: path} }
@@ -256,6 +257,22 @@ func Template(kind int, seed int64, cfg *Config) *Program {
 				{Callee: "MK", Map: true, Volatile: g.pct(50), Binds: []Binding{{Id: "x", Exp: ref("GENI", "arr"), Split: true}}},
 			}}
 		switch fk {
+		case 5:
+			// volatile producers whose only consumer is disabled at run time by
+			// another call's flag (three pairs, flags vary with the seed)
+			top.Calls = nil
+			top.Outs = nil
+			p.Stages = append(p.Stages, gen)
+			for k := 0; k < 3; k++ {
+				fl, mkn, cn := fmt.Sprintf("FL%d", k), fmt.Sprintf("MK%d", k), fmt.Sprintf("CN%d", k)
+				top.Calls = append(top.Calls,
+					&Call{Callee: "GEN", Alias: fl, Binds: []Binding{{Id: "seed", Exp: lit(s1 + int64(k))}}},
+					&Call{Callee: "MK", Alias: mkn, Volatile: true, Binds: []Binding{{Id: "x", Exp: lit(s2 + int64(k))}}},
+					&Call{Callee: "CONS", Alias: cn, Disabled: ref(fl, "flag"), Binds: []Binding{{Id: "f", Exp: ref(mkn, "f")}, {Id: "s", Exp: ref(mkn, "s")}}})
+				top.Outs = append(top.Outs, Param{Name: fmt.Sprintf("y%d", k), Type: TInt})
+				top.Ret = append(top.Ret, Binding{Id: fmt.Sprintf("y%d", k), Exp: ref(cn, "y")})
+			}
+			p.Stages = p.Stages[1:] // GENI unused
 		case 4:
 			// statically forked producer (literal map source) whose collection-
 			// typed file outputs are empty in some forks and not in others,
